@@ -14,8 +14,9 @@ import (
 // ---- C13: whitespace-control hyphens strip exactly the adjacent literal whitespace ----
 
 type c13Case struct {
-	P  *hx.Program `json:"p"`
-	Hy []bool      `json:"hy"` // two flags (left, right) per tag/object token, in order
+	P     *hx.Program `json:"p"`
+	Hy    []bool      `json:"hy"`              // two flags (left, right) per tag/object token, in order
+	Tight []bool      `json:"tight,omitempty"` // per tag/object token: no padding between delimiter/hyphen and content
 }
 
 func stripWS(s string) string {
@@ -100,8 +101,8 @@ func c13Strong(toks []hx.Tok, hy []bool) ([]hx.Tok, bool, bool) {
 
 var c13Hyphens = hx.Define("c13.hyphens", func(c *c13Case, s *hx.Sub) *hx.Violation {
 	toks := hx.MergeText(hx.Tokens(c.P.Nodes, nil))
-	plain := hx.Spell(toks, hx.DefaultDelims, nil)
-	hyph := hx.Spell(toks, hx.DefaultDelims, c.Hy)
+	plain := hx.SpellTight(toks, hx.DefaultDelims, nil, c.Tight)
+	hyph := hx.SpellTight(toks, hx.DefaultDelims, c.Hy, c.Tight)
 	b := c.P.Binds
 	o0 := hx.RenderWith(newEngine(nil), plain, b.Realise())
 	o1 := hx.RenderWith(newEngine(nil), hyph, b.Realise())
@@ -127,7 +128,7 @@ var c13Hyphens = hx.Define("c13.hyphens", func(c *c13Case, s *hx.Sub) *hx.Violat
 	}
 	// (C) every hyphen faces literal text: exactly that adjacent whitespace is removed
 	if st, ok, bites := c13Strong(toks, c.Hy); ok {
-		want := hx.RenderWith(newEngine(nil), hx.Spell(st, hx.DefaultDelims, nil), b.Realise())
+		want := hx.RenderWith(newEngine(nil), hx.SpellTight(st, hx.DefaultDelims, nil, c.Tight), b.Realise())
 		if !want.OK() || want.Out != o1.Out {
 			return hx.V("c13:adjacent-whitespace", "%q with %v renders %q\n   but the same template with the hyphens dropped and the adjacent literal whitespace deleted, %q, renders %v", hyph, b.Logical(), o1.Out, hx.Spell(st, hx.DefaultDelims, nil), want)
 		}
@@ -159,11 +160,15 @@ func TestC13(t *testing.T) {
 	col.Rapid(chk.Sub, env.PerShard(env.Pick(10000, 150000)), func(t *rapid.T) {
 		p := hx.GenProgram(t, prof)
 		// values with white space at their edges, next to hyphenated tags
-		p.Binds["s"] = hx.SStr(rapid.SampledFrom([]string{"  s  ", "v", " lead", "trail \n", "\t", ""}).Draw(t, "sval"))
+		p.Binds["s"] = hx.SStr(rapid.SampledFrom([]string{"  s  ", "v", " lead", "trail \n", "\t", "", "déjà", "à ", "\u00a0nb"}).Draw(t, "sval"))
 		p.Binds["u"] = hx.SStr(rapid.SampledFrom([]string{" u ", "w\n", ""}).Draw(t, "uval"))
 		k := hx.CountTags(hx.Tokens(p.Nodes, nil))
 		if k == 0 {
 			return
+		}
+		var tight []bool
+		if rapid.IntRange(0, 2).Draw(t, "tight") == 0 {
+			tight = rapid.SliceOfN(rapid.Bool(), k, k).Draw(t, "tightflags")
 		}
 		if 2*k <= 10 {
 			for mask := 1; mask < 1<<(2*k); mask++ {
@@ -171,7 +176,7 @@ func TestC13(t *testing.T) {
 				for i := range hy {
 					hy[i] = mask&(1<<i) != 0
 				}
-				if v := chk.Run(&c13Case{P: p, Hy: hy}); v != nil {
+				if v := chk.Run(&c13Case{P: p, Hy: hy, Tight: tight}); v != nil {
 					t.Fatalf("%s", v.Message)
 				}
 			}
@@ -186,7 +191,7 @@ func TestC13(t *testing.T) {
 					hy[i] = hy[i] && rapid.IntRange(0, 3).Draw(t, "sparse") == 0
 				}
 			}
-			if v := chk.Run(&c13Case{P: p, Hy: hy}); v != nil {
+			if v := chk.Run(&c13Case{P: p, Hy: hy, Tight: tight}); v != nil {
 				t.Fatalf("%s", v.Message)
 			}
 		}
